@@ -99,6 +99,10 @@ func (b *GRPCWebBridge) ServeHTTP(rw http.ResponseWriter, r *http.Request) {
 		Outgoing: conn,
 	})
 
+	// A Send abandoned by withCtx (context done) can still be running: wait for it and forbid any later one,
+	// so that the trailer frame is always the last frame of the response.
+	incoming.finish()
+
 	writeTrailerWithStatus(rw, incoming.trailer, status.Convert(err))
 }
 
@@ -203,6 +207,17 @@ type gRPCWebStream struct {
 	rw      http.ResponseWriter
 	r       *http.Request
 	trailer metadata.MD
+
+	// mu serializes writes of message frames with the final trailer frame,
+	// finished is set once the trailer is about to be written.
+	mu       sync.Mutex
+	finished bool
+}
+
+func (s *gRPCWebStream) finish() {
+	s.mu.Lock()
+	s.finished = true
+	s.mu.Unlock()
 }
 
 func (s *gRPCWebStream) Send(ctx context.Context, msg proto.Message) error {
@@ -213,6 +228,13 @@ func (s *gRPCWebStream) send(msg proto.Message) error {
 	data, err := lpmMessage(msg)
 	if err != nil {
 		return err
+	}
+
+	s.mu.Lock()
+	defer s.mu.Unlock()
+
+	if s.finished {
+		return status.Error(codes.Canceled, "stream already finished")
 	}
 
 	if _, err := s.rw.Write(data); err != nil {
@@ -283,6 +305,11 @@ type gRPCWebSocketStream struct {
 	closed bool
 	done   chan struct{}
 	events chan gwsReadEvent
+
+	// sendMu serializes message frames with the final trailer frame,
+	// finished is set once the trailer is about to be written.
+	sendMu   sync.Mutex
+	finished bool
 }
 
 func (s *gRPCWebSocketStream) Recv(ctx context.Context, msg proto.Message) error {
@@ -309,6 +336,14 @@ func (s *gRPCWebSocketStream) Send(ctx context.Context, msg proto.Message) error
 }
 
 func (s *gRPCWebSocketStream) send(msg proto.Message) error {
+	s.sendMu.Lock()
+	defer s.sendMu.Unlock()
+
+	// A send abandoned by withCtx must not write anything after the trailer.
+	if s.finished {
+		return status.Error(codes.Canceled, "stream already finished")
+	}
+
 	if !s.sentMD {
 		s.sentMD = true
 		if err := s.socket.WriteMessage(gws.OpcodeBinary, lpmTrailer(s.header)); err != nil {
@@ -337,6 +372,10 @@ func (s *gRPCWebSocketStream) SetTrailer(md metadata.MD) {
 }
 
 func (s *gRPCWebSocketStream) sendTrailer(st *status.Status) {
+	s.sendMu.Lock()
+	s.finished = true
+	s.sendMu.Unlock()
+
 	_ = s.socket.WriteMessage(gws.OpcodeBinary, lpmTrailer(trailerWithStatus(s.trailer, st)))
 	s.socket.WriteClose(1000, []byte{})
 }
